@@ -110,6 +110,8 @@ def observe(ctx, batches):
                 '-entry', b.entry, '-caches', b.caches, '-watchdog', b.watchdog]
         if b.ids:
             args += ['-ids', b.ids]
+        if getattr(b, 'idsnamed', False):
+            args += ['-idsnamed']
         if b.oddtargets:
             args += ['-oddtargets']
         if b.allfaults:
@@ -433,6 +435,11 @@ def check_c08(ctx):
         ASSUME)
 
 
+def idb(b):
+    b.idsnamed = True
+    return b
+
+
 def check_c09(ctx):
     sd = seeded(ctx)
     preds = ['c09keep', 'c09defs', 'c09form', 'c02', 'c09then', 'c03cut']
@@ -448,11 +455,30 @@ def check_c09(ctx):
     else:
         batches = [Batch(G_N3_ALL_WF, ALL_LAYOUTS, ['100', '101'], [sd['rot']], reps=1, names=sd['names'], spell=sd['spell']),
                    Batch(G_N3_ALL_WF, ALL_LAYOUTS, ['000'], [sd['rot']], reps=1, names=sd['names'], spell=sd['spell'],
-                         entry='SkipThenFull')]
+                         entry='SkipThenFull'),
+                   # parameters / responses with nested schemas (4 nodes): every sub-schema keyword, definitions included
+                   Batch(G_N4_SP_WF if ctx.seed % 2 else G_N4_SR_WF, ['subdir', 'parent'], ['100'], [sd['rot'], (sd['rot'] + 3) % 12, (sd['rot'] + 6) % 12],
+                         reps=1, names=sd['names'], spell=sd['spell'])]
         mcs = [(G_N3_ALL_WF, False, True, 'N3_strict_skip')]
     rep = run_batches(ctx, batches, preds, mcs,
                       nontrivial=lambda o, v: v['wf'] and any(n['kind'] != 's' for n in o['abstract']),
                       sample=lambda o, v: o['opts']['skip'] and any(n['kind'] != 's' and n['t'] == 'ref' for n in o['abstract']))
+    # schemas that carry a relative id (a file next to their document): the references below them still designate what
+    # they designated.  The graphs name their own document instead of writing "#/..." (below an id that means the id's
+    # document), and the library rightly answers in kind: the written-form predicates are not applied here.
+    idbatches = [idb(Batch(G_N3_ALL_WF, ORDINARY if ctx.tier == 'thorough' else ['subdir', 'otherdir', 'sibling'], ['100', '000'],
+                           [sd['rot'], (sd['rot'] + 5) % 12], reps=1, ids='relfile', spell='varied')),
+                 # ... below a parameter / response imported from another directory (4 nodes)
+                 idb(Batch(G_N4_SP_WF if ctx.seed % 2 else G_N4_SR_WF, ORDINARY[:4] if ctx.tier == 'thorough' else ['subdir', 'otherdir'],
+                           ['100', '000'] if ctx.tier == 'thorough' else ['100'], [sd['rot']], reps=1, ids='relfile', spell='varied'))]
+    rep2 = run_batches(ctx, idbatches, ['c09keep', 'c02', 'c03cut'], [], nontrivial=lambda o, v: v['wf'])
+    rep.evaluations += rep2.evaluations
+    rep.violations += rep2.violations
+    rep.nontrivial |= rep2.nontrivial
+    for k, n in rep2.hit.items():
+        rep.hit[k] = rep.hit.get(k, 0) + n
+    for k, n in rep2.counts.items():
+        rep.counts['ids:' + k] = n
     return rep.finish(
         'model_checking',
         'The C02 enumeration (all element kinds, N<=3 nodes, 2-3 documents; N<=4 with parameters / responses) run with '
